@@ -1,9 +1,12 @@
 """Subset interpreter for the AArch64 routines shipped in src/core/arch/aarch64/*.s.
 
-The sources are assembled with llvm-mc and disassembled with llvm-objdump; this module executes exactly the
-instruction forms that occur there (64-bit integer add/sub with flags, mul/umulh, ldp/stp in all addressing
-forms, compare, conditional branch, cset, ret) on a flat byte memory.  Any other mnemonic or operand form raises
-Unsupported: the shipped file changed in a way the interpreter does not cover (inconclusive, never a pass).
+The sources are assembled with llvm-mc and disassembled with llvm-objdump; this module executes the 64-bit integer
+subset of A64 on a flat byte memory: add/sub (with flags, carry, shifted register), mul/umulh/madd/msub, logical
+operations and shifts, compares, conditional select family (csel/csinc/csinv/csneg/cset/csetm/cinc), all condition
+codes incl. the overflow flag, ldp/stp/ldr/str in all addressing forms, b/b.cond/cbz/cbnz, ret.  The shipped files use
+15 of these mnemonics; the rest is there so that a realistic rewrite of a routine (e.g. a branch-free final subtraction)
+is JUDGED instead of being declared uncovered.  Any other mnemonic or operand form raises Unsupported (inconclusive,
+never a pass).
 """
 import os
 import re
@@ -64,13 +67,68 @@ class Program:
         self.mnemonics = sorted({mn for mn, _ in code.values()})
 
     def _decode(self, addr, mn, ops):
-        if mn in ('adds', 'adcs', 'subs', 'sbcs', 'add', 'sub', 'mul', 'umulh', 'adc', 'sbc'):
+        if mn in ('adds', 'adcs', 'subs', 'sbcs', 'add', 'sub', 'mul', 'umulh', 'adc', 'sbc', 'and', 'ands', 'orr', 'eor', 'bic', 'orn', 'eon', 'lsl', 'lsr', 'asr', 'ror'):
             p = [x.strip() for x in ops.split(',')]
+            if len(p) == 4 and not p[2].startswith('#'):
+                m = re.match(r'^(lsl|lsr|asr|ror)\s+#(\d+)$', p[3])
+                if not m or mn in ('lsl', 'lsr', 'asr', 'ror', 'mul', 'umulh', 'adc', 'adcs', 'sbc', 'sbcs'):
+                    raise Unsupported('%s %s' % (mn, ops))
+                return (mn, _reg(p[0]), _reg(p[1]), ('sreg', _reg(p[2]), m.group(1), int(m.group(2))))
+            if len(p) == 4 and p[2].startswith('#'):
+                m = re.match(r'^lsl\s+#(\d+)$', p[3])
+                if not m:
+                    raise Unsupported('%s %s' % (mn, ops))
+                return (mn, _reg(p[0]), _reg(p[1]), ('imm', int(p[2][1:], 0) << int(m.group(1))))
             if len(p) != 3:
                 raise Unsupported('%s %s' % (mn, ops))
             if p[2].startswith('#'):
                 return (mn, _reg(p[0]), _reg(p[1]), ('imm', int(p[2][1:], 0)))
             return (mn, _reg(p[0]), _reg(p[1]), ('reg', _reg(p[2])))
+        if mn in ('madd', 'msub'):
+            p = [x.strip() for x in ops.split(',')]
+            if len(p) != 4:
+                raise Unsupported('%s %s' % (mn, ops))
+            return (mn, _reg(p[0]), _reg(p[1]), _reg(p[2]), _reg(p[3]))
+        if mn in ('neg', 'negs', 'mvn', 'ngc', 'ngcs'):
+            p = [x.strip() for x in ops.split(',')]
+            if len(p) != 2:
+                raise Unsupported('%s %s' % (mn, ops))
+            return (mn, _reg(p[0]), _reg(p[1]))
+        if mn in ('csel', 'csinc', 'csinv', 'csneg'):
+            p = [x.strip() for x in ops.split(',')]
+            if len(p) != 4:
+                raise Unsupported('%s %s' % (mn, ops))
+            return ('csel', mn, _reg(p[0]), _reg(p[1]), _reg(p[2]), p[3])
+        if mn in ('cinc', 'cinv', 'cneg'):
+            p = [x.strip() for x in ops.split(',')]
+            if len(p) != 3:
+                raise Unsupported('%s %s' % (mn, ops))
+            return ('cinc', mn, _reg(p[0]), _reg(p[1]), p[2])
+        if mn == 'csetm':
+            p = [x.strip() for x in ops.split(',')]
+            return ('csetm', _reg(p[0]), p[1])
+        if mn in ('cbz', 'cbnz'):
+            m = re.match(r'^(\w+),\s*0x([0-9a-f]+)', ops)
+            if not m:
+                raise Unsupported('%s %s' % (mn, ops))
+            return (mn, _reg(m.group(1)), int(m.group(2), 16))
+        if mn == 'tst':
+            p = [x.strip() for x in ops.split(',')]
+            if len(p) != 2:
+                raise Unsupported('%s %s' % (mn, ops))
+            return ('tst', _reg(p[0]), ('imm', int(p[1][1:], 0)) if p[1].startswith('#') else ('reg', _reg(p[1])))
+        if mn in ('ldr', 'str'):
+            m = re.match(r'^(\w+),\s*\[(\w+)(?:,\s*#(-?\d+))?\](!)?(?:,\s*#(-?\d+))?$', ops)
+            if not m:
+                raise Unsupported('%s %s' % (mn, ops))
+            r1, base, off, pre, post = m.groups()
+            if pre:
+                mode, imm = 'pre', int(off)
+            elif post is not None:
+                mode, imm = 'post', int(post)
+            else:
+                mode, imm = 'off', int(off) if off else 0
+            return (mn, _reg(r1), _reg(base), mode, imm)
         if mn in ('cmp', 'cmn'):
             p = [x.strip() for x in ops.split(',')]
             if len(p) != 2:
@@ -131,7 +189,37 @@ def _cond(c, N, Z, C, V):
         return N == 1
     if c == 'pl':
         return N == 0
+    if c == 'vs':
+        return V == 1
+    if c == 'vc':
+        return V == 0
+    if c == 'ge':
+        return N == V
+    if c == 'lt':
+        return N != V
+    if c == 'gt':
+        return Z == 0 and N == V
+    if c == 'le':
+        return not (Z == 0 and N == V)
+    if c == 'al':
+        return True
     raise Unsupported('condition ' + c)
+
+
+def _shift(v, kind, n):
+    v &= M64
+    n &= 63
+    if kind == 'lsl':
+        return (v << n) & M64
+    if kind == 'lsr':
+        return v >> n
+    if kind == 'asr':
+        return ((v - (1 << 64) if v >> 63 else v) >> n) & M64
+    return ((v >> n) | (v << (64 - n))) & M64 if n else v
+
+
+def _sx(v):
+    return v - (1 << 64) if v >> 63 else v
 
 
 class Machine:
@@ -175,6 +263,13 @@ class Machine:
         def wr(r, v):
             if r != 31:
                 x[r] = v & M64
+
+        def opnd(o):
+            if o[0] == 'imm':
+                return o[1] & M64
+            if o[0] == 'sreg':
+                return _shift(rd(o[1]), o[2], o[3])
+            return rd(o[1])
         while True:
             steps += 1
             if steps > max_steps:
@@ -186,18 +281,23 @@ class Machine:
             op = ins[0]
             npc = pc + 4
             if op in ('adds', 'adcs', 'add', 'adc'):
-                a = rd(ins[2])
-                b = ins[3][1] if ins[3][0] == 'imm' else rd(ins[3][1])
-                s = a + b + (C if op in ('adcs', 'adc') else 0)
+                a = rd(ins[2]) if not (ins[2] == 32) else x[32]
+                b = opnd(ins[3])
+                cin = (C if op in ('adcs', 'adc') else 0)
+                s = a + b + cin
                 res = s & M64
                 if op in ('adds', 'adcs'):
                     C = 1 if s > M64 else 0
                     Z = 1 if res == 0 else 0
                     N = res >> 63
-                wr(ins[1], res)
+                    V = 1 if _sx(a) + _sx(b) + cin != _sx(res) else 0
+                if ins[1] == 32:
+                    x[32] = res
+                else:
+                    wr(ins[1], res)
             elif op in ('subs', 'sbcs', 'sub', 'sbc'):
-                a = rd(ins[2])
-                b = ins[3][1] if ins[3][0] == 'imm' else rd(ins[3][1])
+                a = rd(ins[2]) if not (ins[2] == 32) else x[32]
+                b = opnd(ins[3])
                 borrow = (1 - C) if op in ('sbcs', 'sbc') else 0
                 s = a - b - borrow
                 res = s & M64
@@ -205,21 +305,88 @@ class Machine:
                     C = 1 if s >= 0 else 0
                     Z = 1 if res == 0 else 0
                     N = res >> 63
-                wr(ins[1], res)
+                    V = 1 if _sx(a) - _sx(b) - borrow != _sx(res) else 0
+                if ins[1] == 32:
+                    x[32] = res
+                else:
+                    wr(ins[1], res)
             elif op == 'cmp':
                 a = rd(ins[1])
-                b = ins[2][1] if ins[2][0] == 'imm' else rd(ins[2][1])
+                b = opnd(ins[2])
                 s = a - b
                 C = 1 if s >= 0 else 0
                 Z = 1 if (s & M64) == 0 else 0
                 N = (s & M64) >> 63
+                V = 1 if _sx(a) - _sx(b) != _sx(s & M64) else 0
             elif op == 'cmn':
                 a = rd(ins[1])
-                b = ins[2][1] if ins[2][0] == 'imm' else rd(ins[2][1])
+                b = opnd(ins[2])
                 s = a + b
                 C = 1 if s > M64 else 0
                 Z = 1 if (s & M64) == 0 else 0
                 N = (s & M64) >> 63
+                V = 1 if _sx(a) + _sx(b) != _sx(s & M64) else 0
+            elif op in ('and', 'ands', 'orr', 'eor', 'bic', 'orn', 'eon'):
+                a, b = rd(ins[2]), opnd(ins[3])
+                if op in ('bic', 'orn', 'eon'):
+                    b = ~b & M64
+                res = (a & b) if op in ('and', 'ands', 'bic') else ((a | b) if op in ('orr', 'orn') else (a ^ b))
+                if op == 'ands':
+                    N, Z, C, V = res >> 63, 1 if res == 0 else 0, 0, 0
+                wr(ins[1], res)
+            elif op == 'tst':
+                res = rd(ins[1]) & opnd(ins[2])
+                N, Z, C, V = res >> 63, 1 if res == 0 else 0, 0, 0
+            elif op in ('lsl', 'lsr', 'asr', 'ror'):
+                wr(ins[1], _shift(rd(ins[2]), op, opnd(ins[3])))
+            elif op in ('madd', 'msub'):
+                pr = rd(ins[2]) * rd(ins[3])
+                wr(ins[1], rd(ins[4]) + pr if op == 'madd' else rd(ins[4]) - pr)
+            elif op in ('neg', 'negs'):
+                b = rd(ins[2])
+                res = (-b) & M64
+                if op == 'negs':
+                    C, Z, N, V = (1 if b == 0 else 0), (1 if res == 0 else 0), res >> 63, (1 if b == 1 << 63 else 0)
+                wr(ins[1], res)
+            elif op == 'mvn':
+                wr(ins[1], ~rd(ins[2]) & M64)
+            elif op in ('ngc', 'ngcs'):
+                b = rd(ins[2])
+                s = 0 - b - (1 - C)
+                res = s & M64
+                if op == 'ngcs':
+                    C, Z, N, V = (1 if s >= 0 else 0), (1 if res == 0 else 0), res >> 63, (1 if -_sx(b) - (1 - C) != _sx(res) else 0)
+                wr(ins[1], res)
+            elif op == 'csel':
+                _, kind, rdst, rn, rm, cc = ins
+                if _cond(cc, N, Z, C, V):
+                    wr(rdst, rd(rn))
+                else:
+                    v = rd(rm)
+                    wr(rdst, v if kind == 'csel' else (v + 1 if kind == 'csinc' else (~v if kind == 'csinv' else -v)))
+            elif op == 'cinc':
+                _, kind, rdst, rn, cc = ins
+                v = rd(rn)
+                wr(rdst, (v + 1 if kind == 'cinc' else (~v if kind == 'cinv' else -v)) if _cond(cc, N, Z, C, V) else v)
+            elif op == 'csetm':
+                wr(ins[1], M64 if _cond(ins[2], N, Z, C, V) else 0)
+            elif op in ('cbz', 'cbnz'):
+                if (rd(ins[1]) == 0) == (op == 'cbz'):
+                    npc = ins[2]
+            elif op in ('ldr', 'str'):
+                _, r1, base, mode, imm = ins
+                b = x[base] if base != 31 else 0
+                addr = b + imm if mode in ('pre', 'off') else b
+                if op == 'ldr':
+                    wr(r1, int.from_bytes(self.read(addr, 8), 'little'))
+                else:
+                    if addr not in self.mem or (addr + 7) not in self.mem:
+                        raise MemoryError('write to unmapped address %x' % addr)
+                    self.write(addr, rd(r1).to_bytes(8, 'little'))
+                if mode == 'pre':
+                    x[base] = addr & M64
+                elif mode == 'post':
+                    x[base] = (b + imm) & M64
             elif op == 'mul':
                 wr(ins[1], rd(ins[2]) * rd(ins[3][1]))
             elif op == 'umulh':
@@ -291,6 +458,21 @@ def selftest():
     m.call(p2, 't', [0x1000, 1, 2])
     w = [int.from_bytes(m.read(0x1000 + 8 * i, 8), 'little') for i in range(4)]
     assert w[0] == 3 and w[1] == 0 and w[2] == M64 and w[3] == M64, w   # 1-2 borrows: 0 - 0 - 1 = all ones
+    # conditional select family, logical operations, shifts, overflow flag: x1 - x2 sets the flags, then selections on hs / hi / eq / lt
+    code3 = {0: ('subs', 'x9, x1, x2'), 4: ('csel', 'x3, x1, x2, hs'), 8: ('csel', 'x4, x1, x2, hi'), 12: ('csinc', 'x5, x1, x2, eq'), 16: ('csetm', 'x6, lt'),
+             20: ('stp', 'x3, x4, [x0], #16'), 24: ('stp', 'x5, x6, [x0], #16'), 28: ('eor', 'x3, x1, x2'), 32: ('and', 'x4, x1, x2, lsl #4'), 36: ('lsr', 'x5, x1, #3'), 40: ('cinc', 'x6, x2, ne'),
+             44: ('stp', 'x3, x4, [x0], #16'), 48: ('stp', 'x5, x6, [x0]'), 52: ('ret', '')}
+    p3 = Program(code3, {'t': 0}, 'selftest')
+    m.map(0x1000, 128)
+    m.call(p3, 't', [0x1000, 7, 7])          # equal: C=1 Z=1 -> hs true, hi false, eq true, lt false
+    w = [int.from_bytes(m.read(0x1000 + 8 * i, 8), 'little') for i in range(8)]
+    assert w[:4] == [7, 7, 7, 0] and w[4] == 0 and w[5] == (7 & (7 << 4)) and w[6] == 0 and w[7] == 7, w
+    m.call(p3, 't', [0x1000, 5, 9])          # 5 - 9: borrow, C=0 N=1 V=0 -> hs false, hi false, eq false (x2+1), lt true
+    w = [int.from_bytes(m.read(0x1000 + 8 * i, 8), 'little') for i in range(8)]
+    assert w[:4] == [9, 9, 10, M64] and w[4] == 12 and w[7] == 10, w
+    m.call(p3, 't', [0x1000, 1 << 63, 1])    # most negative minus one overflows: V=1, N=0 -> lt true
+    w = [int.from_bytes(m.read(0x1000 + 8 * i, 8), 'little') for i in range(4)]
+    assert w[3] == M64 and w[0] == 1 << 63 and w[1] == 1 << 63, w
     return True
 
 
